@@ -77,7 +77,7 @@ class PropertyRun:
             self.errors.append(f"{rep['function']}: {rep['error'][-600:]}")
             return
         if rep.get('out_of_reach'):
-            self.not_proved.append(f"{rep['function']}: out of reach — {rep['out_of_reach']}")
+            self.not_proved.append(f"{rep['function']}{rep.get('case', '')}: not proved in this run — {rep['out_of_reach']}")
             return
         for t in rep.get('trusted', []):
             self.trusted.add(t)
